@@ -23,7 +23,7 @@ Lemma np_bool j : NP (dec_bool j). Proof. destruct j; simpl; discriminate. Qed.
 Lemma np_uint64 j : NP (dec_uint64 j).
 Proof. destruct j as [| |m [e|]| | |]; cbn [dec_uint64]; try discriminate. match goal with |- context [if ?c then _ else _] => destruct c end; discriminate. Qed.
 Lemma np_bigint j : NP (dec_bigint_ptr j). Proof. destruct j as [| |m [e|]| | |]; simpl; discriminate. Qed.
-Lemma np_any j : NP (dec_any j). Proof. unfold dec_any. destruct (any_ok j); discriminate. Qed.
+Lemma np_any j : NP (dec_any j). Proof. discriminate. Qed.
 Lemma np_raw j : NP (dec_raw j). Proof. discriminate. Qed.
 Lemma np_map {A} (dec : ajson -> decoded A) j : (forall x, NP (dec x)) -> NP (dec_map dec j).
 Proof.
@@ -57,12 +57,12 @@ Proof.
 Qed.
 Lemma np_raw_tx pt j : NP (dec_raw_tx pt j).
 Proof. unfold dec_raw_tx. np; try apply np_posting; try apply np_scriptv1. Qed.
-Lemma np_tx_to_core w : NP (tx_to_core w).
+Lemma np_tx_to_core sp w : NP (tx_to_core sp w).
 Proof. unfold tx_to_core. np. apply np_validate. Qed.
 
-Theorem decode_v2_tx_no_panic pt j : decode_v2_tx pt j <> Panic.
+Theorem decode_v2_tx_no_panic pt sp j : decode_v2_tx pt sp j <> Panic.
 Proof. unfold decode_v2_tx. apply np_bind; [apply np_raw_tx|intros; apply np_tx_to_core]. Qed.
-Theorem decode_scriptv1_no_panic j : decode_scriptv1 j <> Panic.
+Theorem decode_scriptv1_no_panic sp j : decode_scriptv1 sp j <> Panic.
 Proof. unfold decode_scriptv1. apply np_bind; [apply np_scriptv1|intros; apply np_ok]. Qed.
 Lemma np_bulk_payload pt a d : NP (dec_bulk_payload pt a d).
 Proof.
@@ -202,33 +202,27 @@ Theorem v1_monetary_exact m a n :
 Proof. intros H1 H2. simpl. rewrite H1, H2. reflexivity. Qed.
 
 (* ScriptV1.ToCore, amount as a decimal STRING: passed through verbatim *)
-Theorem scriptv1_string_exact m a t :
+Theorem scriptv1_string_exact sp m a t :
   jfield "asset" m = Some (AJStr a) -> jfield "amount" m = Some (AJStr t) ->
-  scriptv1_var (AJObj m) = Some (a ++ " " ++ t).
+  scriptv1_var sp (AJObj m) = Some (a ++ " " ++ t).
 Proof. intros H1 H2. simpl. rewrite H1, H2. reflexivity. Qed.
 
-(* ScriptV1.ToCore, amount as a JSON NUMBER: exact below 2^53 *)
-Lemma f64_small n : Z.abs n < 2 ^ 53 -> exists f, f64_of_lit n None = Some f /\ f64_to_int f = n.
-Proof.
-  intros H. unfold f64_of_lit, lit_ratio.
-  destruct (Z.abs n =? 0) eqn:Z0.
-  - apply Z.eqb_eq in Z0. exists (F64 (n <? 0) 0 0). split; [reflexivity|]. simpl. destruct (n <? 0); lia.
-  - assert (Z.abs n <? 2 ^ 53 = true) as L by (apply Z.ltb_lt; exact H).
-    rewrite Z.eqb_refl, L. simpl andb. cbv iota.
-    exists (F64 (n <? 0) (Z.abs n) 0). split; [reflexivity|].
-    unfold f64_to_int. change (0 <=? 0) with true. change (11 <? 0) with false. cbv iota.
-    rewrite Z.pow_0_r, Z.mul_1_r.
-    assert (2 ^ 63 <=? Z.abs n = false) as G.
-    { apply Z.leb_gt. assert (2 ^ 53 < 2 ^ 63) by (apply Z.pow_lt_mono_r; lia). lia. }
-    rewrite G. destruct (n <? 0) eqn:S; [apply Z.ltb_lt in S|apply Z.ltb_ge in S]; lia.
-Qed.
-Theorem scriptv1_number_exact_below_2_53 m a n :
-  Z.abs n < 2 ^ 53 ->
+(* ScriptV1.ToCore, amount as a JSON NUMBER (json.Number since fixes/09): exact for every integer *)
+Theorem scriptv1_number_exact sp m a n :
   jfield "asset" m = Some (AJStr a) -> jfield "amount" m = Some (AJNum n None) ->
-  scriptv1_var (AJObj m) = Some (a ++ " " ++ zstr n).
+  scriptv1_var sp (AJObj m) = Some (a ++ " " ++ zstr n).
+Proof. intros H1 H2. simpl. rewrite H1, H2. reflexivity. Qed.
+(* a bare numeric variable: exact as well *)
+Theorem scriptv1_bare_number_exact sp n : scriptv1_var sp (AJNum n None) = Some (zstr n).
+Proof. reflexivity. Qed.
+(* an integer spelled with an exponent (1e3) or a zero fraction (100.0) is rendered as the integer it denotes *)
+Theorem number_text_integer sp m e : 0 <= e <= 999 -> number_text sp m (Some e) = zstr (m * 10 ^ e).
 Proof.
-  intros H H1 H2. destruct (f64_small n H) as [f [E1 E2]].
-  simpl. rewrite H1, H2, E1, E2. reflexivity.
+  intros [H1 H2]. unfold number_text.
+  assert ((999 <? e) = false) as A by (apply Z.ltb_ge; lia).
+  assert ((e <? -999) = false) as B by (apply Z.ltb_ge; lia).
+  assert ((0 <=? e) = true) as C by (apply Z.leb_le; lia).
+  rewrite A, B, C. reflexivity.
 Qed.
 
 (* v2 postings: amount as a JSON integer of any magnitude is decoded exactly *)
